@@ -120,6 +120,9 @@ func (l *Link) limit() int {
 	return end
 }
 
+// Deliverable is the number of bytes the link will hand out before it ends or fails.
+func (l *Link) Deliverable() int { return l.limit() }
+
 func (l *Link) Read(p []byte) (int, error) {
 	idx := l.Reads
 	l.Reads++
@@ -222,12 +225,18 @@ type Sink struct {
 	ErrCount   int
 	AfterErr   int // writes attempted after a permanent error was returned
 	ZeroWrites int
+	// Hook, when set, runs at the start of every Write with the 1-based call number:
+	// whatever it does happens "while this Write is in progress" (another caller running)
+	Hook func(call int)
 }
 
 func NewSink(f *WriteFault) *Sink { return &Sink{Fault: f} }
 
 func (s *Sink) Write(p []byte) (int, error) {
 	call := len(s.Calls)
+	if s.Hook != nil {
+		s.Hook(call + 1)
+	}
 	if len(p) == 0 {
 		s.ZeroWrites++
 	}
